@@ -72,6 +72,8 @@ type Interp struct {
 	cacheHits    int
 	unknownFeas  int
 	crossChecked int
+	cross        *Solver
+	crossCache   map[string]Result
 	uniq         map[string]Value // unique.Make interning
 	initNotes    []string
 	qcache       map[string]cacheEntry
